@@ -62,59 +62,11 @@ macro_rules! per_impl_search {
                 SecretKey::<C>(bsc(&sc_be(s)))
             }
 
-            pub fn c01(s: &mut Search, rng: &mut Prng, thorough: bool) {
-                let mut keys = gen::edge_scalars();
-                for _ in 0..(if thorough { 24 } else { 4 }) {
-                    keys.push(rng.scalar());
-                }
-                let lens = gen::msg_lengths(thorough);
-                for (ki, k) in keys.iter().enumerate() {
-                    let sk = sk_of(k);
-                    let pk = sk.public_key();
-                    let pk_bytes = Vec::<u8>::from(&pk);
-                    let ok_pk = pk_bytes == ref_sk_to_pk(G1, k);
-                    s.case("public_key_matches_reference", gen::hs(k), ok_pk, json!({"impl": if G1 {"g1"} else {"g2"}, "sk": gen::hs(k)}));
-                    for scheme in 0..3u8 {
-                        for (li, &len) in lens.iter().enumerate() {
-                            if ki >= 2 && (li + ki + scheme as usize) % 4 != 0 {
-                                continue;
-                            }
-                            let m = gen::message(rng, len);
-                            let det = json!({"impl": if G1 {"g1"} else {"g2"}, "sk": gen::hs(k), "scheme": gen::SCH[scheme as usize], "msg_len": len, "msg": if len <= 64 { gen::hx(&m) } else { format!("sha256:{}", gen::hx(&sha256(&m))) }});
-                            let key = format!("{}|{}|{}|{}", G1, gen::hs(k), scheme, gen::hx(&sha256(&m)));
-                            let sg = sk.sign(scheme_of(scheme), &m);
-                            let sg2 = sk.sign(scheme_of(scheme), &m);
-                            let (Ok(sg), Ok(sg2)) = (sg, sg2) else {
-                                s.case("sign_succeeds", key, false, det);
-                                continue;
-                            };
-                            s.case("sign_deterministic", key.clone(), sg == sg2, det.clone());
-                            s.case("honest_verifies", key.clone(), sg.verify(&pk, &m).is_ok(), det.clone());
-                            // reference verifier accepts, and bytes equal the reference signature
-                            let raw = sg.as_raw_value().to_bytes().as_ref().to_vec();
-                            let am = gen::amsg(G1, scheme, k, &m);
-                            s.case("reference_accepts", key.clone(), ref_core_verify(G1, &pk_bytes, &raw, &am, &gen::dst(G1, scheme)), det.clone());
-                            // through the encodings: bytes, bare, json of key, public key, signature
-                            let skb = Vec::<u8>::from(&sk);
-                            let sgb = Vec::<u8>::from(&sg);
-                            let r = catch(|| {
-                                let sk2 = SecretKey::<C>::try_from(skb.as_slice()).map_err(|_| ())?;
-                                let pk2 = PublicKey::<C>::try_from(pk_bytes.as_slice()).map_err(|_| ())?;
-                                let sg3 = Signature::<C>::try_from(sgb.as_slice()).map_err(|_| ())?;
-                                let sgj: Signature<C> = serde_json::from_str(&serde_json::to_string(&sg).map_err(|_| ())?).map_err(|_| ())?;
-                                let pkj: PublicKey<C> = serde_json::from_str(&serde_json::to_string(&pk).map_err(|_| ())?).map_err(|_| ())?;
-                                let skj: SecretKey<C> = serde_json::from_str(&serde_json::to_string(&sk).map_err(|_| ())?).map_err(|_| ())?;
-                                let skbare: SecretKey<C> = serde_bare::from_slice(&serde_bare::to_vec(&sk).map_err(|_| ())?).map_err(|_| ())?;
-                                let ok = sk2 == sk && skj == sk && skbare == sk
-                                    && sg3.verify(&pk2, &m).is_ok() && sgj.verify(&pkj, &m).is_ok()
-                                    && sk2.sign(scheme_of(scheme), &m).map_err(|_| ())? == sg;
-                                Ok::<bool, ()>(ok)
-                            });
-                            s.case("verifies_through_encodings", key, matches!(r, Ok(Ok(true))), det);
-                        }
-                    }
-                }
-            }
+            search_c01!();
+            search_sigs!();
+            search_thresh!();
+            search_enc!();
+            search_codec!();
         }
     };
 }
@@ -125,11 +77,30 @@ pub fn run(prop: &str, thorough: bool, seed: u64) {
     std::panic::set_hook(Box::new(|_| {}));
     let mut s = Search::new(prop);
     let mut rng = Prng(seed ^ 0x5EA2C4);
+    macro_rules! both {
+        ($f:ident) => {{
+            g1::$f(&mut s, &mut rng, thorough);
+            g2::$f(&mut s, &mut rng, thorough);
+        }};
+    }
     match prop {
-        "C01" => {
-            g1::c01(&mut s, &mut rng, thorough);
-            g2::c01(&mut s, &mut rng, thorough);
-        }
+        "C01" => both!(c01),
+        "C02" => both!(c02),
+        "C04" => both!(c04),
+        "C05" => both!(c05),
+        "C06" => both!(c06),
+        "C07" => both!(c07),
+        "C09" => both!(c09),
+        "C08" => both!(c08),
+        "C10" => both!(c10),
+        "C12" => both!(c12),
+        "C14" => both!(c14),
+        "C11" => both!(c11),
+        "C13" => both!(c13),
+        "C18" => both!(c18),
+        "C15" => both!(c15),
+        "C16" => both!(c16),
+        "C17" => both!(c17),
         _ => {}
     }
     s.finish();
